@@ -109,6 +109,8 @@ def replay(ctx, beh, rnd):
                 shown = [j for j, h in enumerate(want_helpers) if h][:2]
                 want_helpers = [j in shown for j in range(3)]
             want = (a['handler'], a['domain'], want_helpers)
+            if not a.get('pinned', True):
+                continue        # its table object was refilled after the parser was constructed: not pinned (see Dispatch_MC)
             if got != want:
                 ctx.violation('%s/dispatch/%s' % (ctx.prop, 'handler' if got[0] != want[0] else 'domain' if got[1] != want[1] else 'helpers'),
                               'step %d of %s: parser %s fed id %d answers %s, its own table demands %s'
